@@ -978,6 +978,137 @@ def oracle_forests(ctx) -> None:
     ctx.stats["forest_oracle_cases"] = n_cases
 
 
+# ================================================================================== unit correspondence
+# The mutators, one call each, on ARBITRARY metadata records -- including states no history reaches (duplicated
+# ids, dangling current / parents / log rows, unusable snapshot log), where the fall-back branches live.
+def _rand_meta(rng: random.Random) -> Dict[str, Any]:
+    n = rng.choice([0, 1, 2, 3, 3, 4, 5])
+    pool = [1, 2, 3, 4, 5, 6]
+    ids = [rng.choice(pool) for _ in range(n)] if rng.random() < 0.25 else rng.sample(pool, n)
+    links = [None, -1, 9] + pool
+    snaps = [{"id": i, "ts": rng.choice([1000, 1000, 1001, 1002, 999]), "parent": rng.choice(links)} for i in ids]
+    r = rng.random()
+    if r < 0.5:
+        slog = [(s["ts"], s["id"]) for s in snaps]
+    elif r < 0.8:
+        slog = [(s["ts"], s["id"]) for s in snaps if rng.random() < 0.6] + ([(1000, 8)] if rng.random() < 0.3 else [])
+        rng.shuffle(slog)
+    else:
+        slog = []
+    cur = rng.choice([None, -1, 9] + (ids or [1]) * 3)
+    mlog = [(rng.choice([1000, 1001]), k) for k in rng.sample(range(1, 8), rng.choice([0, 1, 2, 3, 4]))]
+    return {"snaps": snaps, "slog": slog, "cur": cur, "ret": rng.choice(RET_VALUES + ["3", " 2 ", "-1", "2.0"]),
+            "max": rng.choice(MAX_VALUES + ["3", "-2", "1.5"]), "mlog": mlog, "lu": rng.choice([1000, 1003])}
+
+
+def _meta_coq(m: Dict[str, Any]) -> str:
+    sn = "; ".join(f"mk {x['id']} ({x['ts']}) {_popt(x['parent'])}" for x in m["snaps"])
+    sl = "; ".join(f"({a}, {b})" for a, b in m["slog"])
+    ml = "; ".join(f"({a}, {b})" for a, b in m["mlog"])
+    return (f"{{| cur := {_popt(m['cur'])}; snaps := [{sn}]; slog := [{sl}]; last_seq := 0; last_updated := {m['lu']}; "
+            f"retention := {pval_coq(m['ret'])}; prevmax := {pval_coq(m['max'])}; mlog := [{ml}] |}}")
+
+
+def _meta_real(m: Dict[str, Any]):
+    from datashard.data_structures import HistoryEntry, Snapshot, TableMetadata
+    props = {}
+    if m["ret"] is not None:
+        props[RET_KEY] = m["ret"]
+    if m["max"] is not None:
+        props[MAX_KEY] = m["max"]
+    return TableMetadata(
+        location="x", properties=props, current_snapshot_id=m["cur"], last_updated_ms=m["lu"],
+        snapshots=[Snapshot(snapshot_id=x["id"], timestamp_ms=x["ts"], manifest_list="", parent_snapshot_id=x["parent"]) for x in m["snaps"]],
+        snapshot_log=[HistoryEntry(timestamp_ms=a, snapshot_id=b) for a, b in m["slog"]],
+        metadata_log=[{"timestamp-ms": a, "metadata-file": f"metadata/f{b}"} for a, b in m["mlog"]])
+
+
+def _view(md) -> Any:
+    o = lambda p: None if p is None else Some(p)
+    return (o(md.current_snapshot_id), [(s.snapshot_id, s.timestamp_ms, o(s.parent_snapshot_id)) for s in md.snapshots],
+            [(e.timestamp_ms, e.snapshot_id) for e in md.snapshot_log])
+
+
+class _StubMM:
+    def __init__(self, md):
+        self.md = md
+        self.committed = None
+
+    def refresh(self):
+        return copy.deepcopy(self.md)
+
+    def commit(self, base, new):
+        self.committed = new
+        return new
+
+    def get_all_snapshots(self):
+        return self.md.snapshots
+
+
+UNIT_PRE = """
+Definition mk (i t : Z) (p : option Z) : snap := {| sid := i; ts := t; parent := p; seq := 0; mlist := [] |}.
+Definition view (m : meta) := (cur m, map (fun s => (sid s, ts s, parent s)) (snaps m), slog m).
+Definition sview (o : option snap) := option_map (fun s => (sid s, ts s, parent s)) o.
+"""
+
+
+def corr_units(ctx) -> None:
+    patch_library()
+    from datashard.metadata_manager import MetadataManager
+    from datashard.snapshot_manager import SnapshotManager
+    from datashard.transaction import Transaction
+    rng = ctx.rng
+    n = 400 if ctx.tier == "quick" else 3000
+    exprs, impl, descr = [], [], []
+    for _ in range(n):
+        m = _rand_meta(rng)
+        mc = _meta_coq(m)
+        cutoff = rng.choice([999, 1000, 1001, 1002, 5000])
+        tq = rng.choice([998, 999, 1000, 1001, 1002])
+        did = rng.choice([1, 2, 3, 4, 5, 6, 9])
+        prev = rng.choice([1, 2, 3, 9] + ([m["mlog"][-1][1]] * 3 if m["mlog"] else []))
+        # real side
+        md = _meta_real(m)
+        SnapshotManager._apply_retention(SnapshotManager(_StubMM(None)), md)
+        r_ret = _view(md)
+        md = _meta_real(m)
+        Transaction._make_expire_mutator(cutoff)(md)
+        r_exp = _view(md)
+        md = _meta_real(m)
+        mr = SnapshotManager._most_recent_snapshot_id(md)
+        r_mr = None if mr is None else Some(mr)
+        stub = _StubMM(_meta_real(m))
+        s = SnapshotManager(stub).get_snapshot_by_timestamp(tq)
+        r_ts = None if s is None else Some((s.snapshot_id, s.timestamp_ms, None if s.parent_snapshot_id is None else Some(s.parent_snapshot_id)))
+        stub = _StubMM(_meta_real(m))
+        ok = SnapshotManager(stub).delete_snapshot(did)
+        r_del = Some(_view(stub.committed)) if ok else None
+        if bool(ok) != (stub.committed is not None):
+            r_del = ("inconsistent", ok)
+        mm = MetadataManager.__new__(MetadataManager)
+        mm.metadata_path = "metadata"
+        new_md, base_md = _meta_real(m), _meta_real(m)
+        mm._append_metadata_log(new_md, base_md, f"f{prev}")
+        r_ml = [(e["timestamp-ms"], int(e["metadata-file"][len("metadata/f"):])) for e in new_md.metadata_log]
+        impl.append((r_ret, r_exp, r_mr, r_ts, r_del, r_ml))
+        descr.append({"meta": m, "cutoff": cutoff, "t": tq, "delete": did, "prev_file": prev})
+        exprs.append(f"let m := {mc} in (0, view (apply_retention m), view (expire ({cutoff}) m), most_recent m, "
+                     f"sview (by_timestamp m ({tq})), option_map view (delete_snapshot m ({did})), "
+                     f"append_mlog (prevmax m) (mlog m) (last_updated m) {prev})")
+    got = coq_eval_batched(exprs, preamble=UNIT_PRE, chunk=100)
+    names = ["apply_retention", "expire", "most_recent", "by_timestamp", "delete_snapshot", "append_metadata_log"]
+    bad = []
+    for d, i, g in zip(descr, impl, got):
+        ctx.count(6, ("unit", json.dumps(d, sort_keys=True, default=str)))
+        for nm, a, b in zip(names, i, list(g)[1:]):
+            if _plain(a) != _plain(b):
+                bad.append({"function": nm, "case": d, "impl": repr(a), "model": repr(b)})
+                break
+    ctx.correspondence("units", 6 * n, bad)
+    ctx.stats["unit_states"] = n
+    ctx.stats["unit_states_with_duplicate_ids"] = sum(1 for d in descr if len({x["id"] for x in d["meta"]["snaps"]}) < len(d["meta"]["snaps"]))
+
+
 # ================================================================================== driver
 def check_histories(ctx) -> None:
     nh = 150 if ctx.tier == "quick" else 700
@@ -1124,7 +1255,13 @@ def run(ctx) -> None:
         corr_forests(ctx)
     except RuntimeError as e:
         ctx.proof_problems.append("model evaluation failed: " + str(e)[:600])
-    ctx.stats["t_forest_corr_s"] = round(time.time() - t2, 1)
+    t3 = time.time()
+    ctx.stats["t_forest_corr_s"] = round(t3 - t2, 1)
+    try:
+        corr_units(ctx)
+    except RuntimeError as e:
+        ctx.proof_problems.append("model evaluation (units) failed: " + str(e)[:600])
+    ctx.stats["t_units_s"] = round(time.time() - t3, 1)
 
 
 def replay(ctx, payload) -> int:
